@@ -1,12 +1,417 @@
-//! Family `arc`: C16 — 3DS arc.  (stub)
-#![allow(unused)]
+//! Family `arc`: C16 — 3DS arc extraction (`arc::from_bytes`).
+//!
+//! The library has no arc writer: images are *spec-built* here by constructing a `BinArchive`
+//! through the public API exactly as `Spec.ArcImage` prescribes and calling `serialize()`.
+//!
+//! Case line
+//!   `<id> arc <img-hex> <expect> <padded> <countAddr> <infoAddr>
+//!        D <data-hex> S <k> (<addr> <string-hex>)* L <k> (<addr> <label-hex>)* F <n> (<name-hex> <body-hex>)*`
+//!   id      = `c16c.<n>` | `c16w.<n>`: overflow checks of the running harness binary on (`checked`) / off (`wrapping`);
+//!             the driver runs the model in that profile (kept out of the payload so that the same image
+//!             under two profiles is not counted as two distinct cases)
+//!   expect  = `ok` | `NoCount` | `NoInfo` | `MissingName` | `OutOfRange` | `~` (malformed: only "no panic")
+//!   D/S/L   = the content the image was built from (data region as serialized, string cells, labels)
+//!   F       = the files in record order
+//! Implementation line: `ok <n> (<name-hex> <body-hex>)*` sorted by name | `err <Class>` | `panic`
+//!   Class = NoCount | NoInfo | MissingName | OutOfBounds | Other
 use crate::util::*;
+use mila::{arc, ArcError, ArchiveError, BinArchive, Endian};
 
-pub fn gen(_seed: u64, _tier: &str) -> Vec<String> {
-    Vec::new()
+fn overflow_checks_on() -> bool {
+    let x: u8 = std::hint::black_box(255);
+    let one: u8 = std::hint::black_box(1);
+    no_panic(move || x + one).is_err()
+}
+
+struct Built {
+    img: Vec<u8>,
+    data_len: usize,
+    strings: Vec<(usize, String)>,
+    labels: Vec<(usize, String)>,
+    files: Vec<(String, Vec<u8>)>,
+    padded: bool,
+    count_addr: usize,
+    info_addr: usize,
+}
+
+#[derive(Clone, Copy, PartialEq, Debug)]
+enum Kind {
+    Ok,
+    NoCount,
+    NoInfo,
+    NoBoth,
+    MissingName,
+    OutOfRange,
+}
+
+fn align4(x: usize) -> usize {
+    (x + 3) / 4 * 4
+}
+
+/// Lays out and builds one image. Sections (count cell, record table, bodies) are placed in a
+/// random order with random gaps after the optional zero header.
+fn build(rng: &mut Rng, kind: Kind) -> Built {
+    let n = match rng.below(8) {
+        0 => 0,
+        1 => 1,
+        _ => rng.range(0, 12),
+    } as usize;
+    let n = if matches!(kind, Kind::MissingName | Kind::OutOfRange) { n.max(1) } else { n };
+    let padded = rng.chance(1, 2);
+    let names = super::pack::distinct_names(rng, n);
+    let mut files: Vec<(String, Vec<u8>)> = Vec::new();
+    for name in names {
+        let l = match rng.below(6) {
+            0 => 0,
+            1 => rng.range(1, 5),
+            2 => rng.range(0, 3) * 4,
+            _ => rng.range(0, 70),
+        } as usize;
+        let b = if !files.is_empty() && rng.chance(1, 8) {
+            files[rng.below(files.len() as u64) as usize].1.clone() // equal content → may be shared
+        } else {
+            rng.bytes(l)
+        };
+        files.push((name, b));
+    }
+    if n >= 2 && rng.chance(1, 20) {
+        // duplicated name: outside the property's quantifier (later record wins); model vs code only
+        files[n - 1].0 = files[0].0.clone();
+    }
+
+    // sections: 0 = count cell, 1 = table, 2+i = body i
+    let mut sections: Vec<usize> = (0..n + 2).collect();
+    rng.shuffle(&mut sections);
+    let base = if padded { 0x60 } else { 0 };
+    let mut pos = base;
+    let mut data: Vec<u8> = vec![0; base];
+    let mut count_addr = 0;
+    let mut info_addr = 0;
+    let mut offs = vec![0usize; n];
+    // unpadded: the first data word must not be 0 → the data starts with the count cell (n > 0,
+    // half of the time) or with a non-zero marker word
+    if !padded {
+        if n > 0 && rng.chance(1, 2) {
+            count_addr = 0;
+            data.extend((n as u32).to_le_bytes());
+            sections.retain(|s| *s != 0);
+        } else {
+            let mut w = rng.bytes(4);
+            // boundary: a non-zero word whose low byte(s) are zero must still count as "no header"
+            match rng.below(4) {
+                0 => w[0] = 0,
+                1 => {
+                    w[0] = 0;
+                    w[1] = 0;
+                    w[2] = 0;
+                }
+                _ => {}
+            }
+            if w == [0, 0, 0, 0] {
+                w[3] = 1;
+            }
+            data.extend(w);
+        }
+        pos += 4;
+    }
+    let share = rng.chance(1, 3);
+    for s in sections {
+        // gap
+        if rng.chance(1, 3) {
+            let g = if rng.chance(1, 2) { 4 * rng.range(1, 3) as usize } else { rng.range(1, 7) as usize };
+            data.extend(rng.bytes(g));
+            pos += g;
+        }
+        match s {
+            0 | 1 => {
+                // cells: 4-aligned most of the time
+                if pos % 4 != 0 && !rng.chance(1, 6) {
+                    let p = align4(pos) - pos;
+                    data.extend(vec![0xEE; p]);
+                    pos += p;
+                }
+                if s == 0 {
+                    count_addr = pos;
+                    data.extend((n as u32).to_le_bytes());
+                    pos += 4;
+                } else {
+                    info_addr = pos;
+                    data.extend(vec![0u8; 16 * n]);
+                    pos += 16 * n;
+                }
+            }
+            _ => {
+                let i = s - 2;
+                let body = &files[i].1;
+                let mut placed = false;
+                if share && !body.is_empty() {
+                    // an identical byte range that already exists after the header (other body, gap bytes)
+                    if let Some(p) = data[base..].windows(body.len()).position(|w| w == &body[..]) {
+                        // not inside the table / count cell (their bytes change when cells are written)
+                        let a = base + p;
+                        let clash = |lo: usize, len: usize| a < lo + len && lo < a + body.len();
+                        if !clash(info_addr, 16 * n) && !clash(count_addr, 4) {
+                            offs[i] = a - base;
+                            placed = true;
+                        }
+                    }
+                }
+                if body.is_empty() && rng.chance(1, 2) {
+                    // an empty file may point anywhere, also beyond the data
+                    offs[i] = *rng.pick(&[0usize, 1, 0x1000, 0xFFFF_FFFF, 0xFFFF_FFA0]);
+                    placed = true;
+                }
+                if !placed {
+                    offs[i] = pos - base;
+                    data.extend(body);
+                    pos += body.len();
+                }
+            }
+        }
+    }
+    if rng.chance(1, 2) {
+        let g = rng.range(1, 9) as usize;
+        data.extend(rng.bytes(g));
+    }
+    // the archive API wants whole cells at the end for labels at `size`; pad to 4
+    while data.len() % 4 != 0 {
+        data.push(0xDD);
+    }
+    let data_len = data.len();
+
+    // error variants that change the records
+    let bad = if n > 0 { rng.below(n as u64) as usize } else { 0 };
+    let mut sizes: Vec<usize> = files.iter().map(|f| f.1.len()).collect();
+    if kind == Kind::OutOfRange {
+        let avail = data_len - base; // bytes after the header
+        match rng.below(6) {
+            0 => {
+                // offset far away, near 2^32 (D9: must not wrap around)
+                offs[bad] = *rng.pick(&[0xFFFF_FFF0usize, 0xFFFF_FFFF, 0xFFFF_FFA0, 0xFFFF_FF9F, 0x8000_0000]);
+                sizes[bad] = sizes[bad].max(1);
+            }
+            1 => {
+                // size far too large
+                sizes[bad] = *rng.pick(&[0xFFFF_FFFFusize, 0x8000_0000, 0x1_0000]);
+            }
+            2 => {
+                // range ends exactly one byte after the data
+                let sz = rng.range(1, 8) as usize;
+                let sz = sz.min(avail.max(1));
+                sizes[bad] = sz;
+                offs[bad] = avail + 1 - sz;
+            }
+            3 => {
+                // starts at the end
+                offs[bad] = avail;
+                sizes[bad] = rng.range(1, 4) as usize;
+            }
+            4 => {
+                // wraps to a valid range if added in 32 bits (only meaningful with the header)
+                offs[bad] = 0xFFFF_FFFF - 0x5F + rng.below(8) as usize; // + 0x60 ≡ small
+                sizes[bad] = rng.range(1, 4) as usize;
+            }
+            _ => {
+                offs[bad] = avail + rng.range(1, 100) as usize;
+                sizes[bad] = sizes[bad].max(1);
+            }
+        }
+    }
+
+    // build through the public API
+    let mut a = BinArchive::new(Endian::Little);
+    a.allocate_at_end(data_len);
+    a.write_bytes(0, &data).unwrap(); // data_len >= 4
+    let mut strings: Vec<(usize, String)> = Vec::new();
+    let mut labels: Vec<(usize, String)> = Vec::new();
+    a.write_u32(count_addr, n as u32).unwrap();
+    for i in 0..n {
+        let r = info_addr + 16 * i;
+        if !(kind == Kind::MissingName && i == bad) {
+            a.write_string(r, Some(&files[i].0)).unwrap();
+            strings.push((r, files[i].0.clone()));
+        }
+        a.write_u32(r + 4, rng.next() as u32).unwrap();
+        a.write_u32(r + 8, sizes[i] as u32).unwrap();
+        a.write_u32(r + 12, offs[i] as u32).unwrap();
+    }
+    // labels (in a random order of calls)
+    let mut want: Vec<(usize, String)> = Vec::new();
+    if !matches!(kind, Kind::NoCount | Kind::NoBoth) {
+        want.push((count_addr, "Count".to_string()));
+    } else if rng.chance(1, 2) {
+        want.push((count_addr, rng.pick(&["count", "Counts", "Coun", "COUNT"]).to_string()));
+    }
+    if !matches!(kind, Kind::NoInfo | Kind::NoBoth) {
+        want.push((info_addr, "Info".to_string()));
+    } else if rng.chance(1, 2) {
+        want.push((info_addr, rng.pick(&["info", "Infos", "Inf", "INFO"]).to_string()));
+    }
+    // decoys: other labels anywhere (also sharing a bucket with Count / Info), and the reserved
+    // names again at *higher* addresses (the lowest address wins)
+    for _ in 0..rng.below(4) {
+        let addr = 4 * rng.below(data_len as u64 / 4 + 1) as usize;
+        want.push((addr, rng.pick(&["Data", "X", "Count2", "InfoX", "カウント"]).to_string()));
+    }
+    if rng.chance(1, 4) {
+        want.push((count_addr, "Extra".to_string()));
+    }
+    if rng.chance(1, 5) && !matches!(kind, Kind::NoCount | Kind::NoBoth) && count_addr + 4 <= data_len {
+        let hi = count_addr + 4 * rng.range(1, ((data_len - count_addr) / 4) as u64) as usize;
+        want.push((hi, "Count".to_string()));
+    }
+    if rng.chance(1, 5) && !matches!(kind, Kind::NoInfo | Kind::NoBoth) && info_addr + 4 <= data_len {
+        let hi = info_addr + 4 * rng.range(1, ((data_len - info_addr) / 4) as u64) as usize;
+        want.push((hi, "Info".to_string()));
+    }
+    rng.shuffle(&mut want);
+    for (addr, l) in want {
+        if a.write_label(addr, &l).is_ok() {
+            labels.push((addr, l));
+        }
+    }
+    let img = a.serialize().unwrap();
+    // files as the records declare them (for the error kinds the declared sizes differ from the bodies)
+    Built { img, data_len, strings, labels, files, padded, count_addr, info_addr }
+}
+
+fn fmt_case(b: &Built, expect: &str) -> String {
+    // (for damaged images the content fields are not used by the oracle)
+    let data: &[u8] = if b.img.len() >= 0x20 + b.data_len { &b.img[0x20..0x20 + b.data_len] } else { &[] };
+    let mut s = format!(
+        "arc {} {} {} {} {} D {}",
+        hex(&b.img),
+        expect,
+        if b.padded { 1 } else { 0 },
+        b.count_addr,
+        b.info_addr,
+        hex(data)
+    );
+    s.push_str(&format!(" S {}", b.strings.len()));
+    for (a, t) in &b.strings {
+        s.push_str(&format!(" {} {}", a, hexs(t)));
+    }
+    s.push_str(&format!(" L {}", b.labels.len()));
+    for (a, t) in &b.labels {
+        s.push_str(&format!(" {} {}", a, hexs(t)));
+    }
+    s.push_str(&format!(" F {}", b.files.len()));
+    for (k, v) in &b.files {
+        s.push_str(&format!(" {} {}", hexs(k), hex(v)));
+    }
+    s
+}
+
+pub fn gen(seed: u64, tier: &str) -> Vec<String> {
+    match no_panic(|| gen_inner(seed, tier)) {
+        Ok(v) => v,
+        Err(e) => {
+            eprintln!("arc generator panicked: {}", e);
+            std::process::exit(3);
+        }
+    }
+}
+
+fn gen_inner(seed: u64, tier: &str) -> Vec<String> {
+    let mut rng = Rng::new(seed ^ 0xC16);
+    let thorough = tier == "thorough";
+    let profile = if overflow_checks_on() { "c" } else { "w" };
+    let mut lines: Vec<String> = Vec::new();
+    let mut n = 0usize;
+    let mut push = |lines: &mut Vec<String>, rest: String| {
+        lines.push(format!("c16{}.{:06} {}", profile, n, rest));
+        n += 1;
+    };
+    let ok_cases = if thorough { 6000 } else { 400 };
+    for _ in 0..ok_cases {
+        let b = build(&mut rng, Kind::Ok);
+        push(&mut lines, fmt_case(&b, "ok"));
+    }
+    let err_cases = if thorough { 800 } else { 60 };
+    for (kind, expect) in [
+        (Kind::NoCount, "NoCount"),
+        (Kind::NoInfo, "NoInfo"),
+        (Kind::NoBoth, "NoCount"),
+        (Kind::MissingName, "MissingName"),
+        (Kind::OutOfRange, "OutOfRange"),
+        (Kind::OutOfRange, "OutOfRange"),
+    ] {
+        for _ in 0..err_cases {
+            let b = build(&mut rng, kind);
+            push(&mut lines, fmt_case(&b, expect));
+        }
+    }
+    // malformed: mutations of conforming images (bin-archive level damage)
+    let mal = if thorough { 2000 } else { 150 };
+    for j in 0..mal {
+        let mut b = build(&mut rng, Kind::Ok);
+        match j % 5 {
+            0 => {
+                let cut = rng.below(b.img.len() as u64 + 1) as usize;
+                b.img.truncate(cut);
+            }
+            1 => {
+                // header field boundary values
+                let f = 4 + 4 * rng.below(3) as usize;
+                let v: u32 = *rng.pick(&[0u32, 1, 0xFFFF_FFFF, 0x8000_0000, b.img.len() as u32, b.data_len as u32 + 4]);
+                if b.img.len() >= f + 4 {
+                    b.img[f..f + 4].copy_from_slice(&v.to_le_bytes());
+                }
+            }
+            2 => {
+                // count word damaged: more records than the table holds
+                let p = 0x20 + b.count_addr;
+                let v: u32 = *rng.pick(&[b.files.len() as u32 + 1, 0xFFFF_FFFF, 0x1000]);
+                if b.img.len() >= p + 4 && b.data_len >= b.count_addr + 4 {
+                    b.img[p..p + 4].copy_from_slice(&v.to_le_bytes());
+                }
+            }
+            3 => {
+                // bit flip in the tables after the data (pointer table, label table); the text
+                // pool is left alone (the sub-codec of the model does not cover damaged text)
+                let lo = 0x20 + b.data_len;
+                let hi = lo + 4 * b.strings.len() + 8 * b.labels.len();
+                if hi > lo && hi <= b.img.len() {
+                    let p = lo + rng.below((hi - lo) as u64) as usize;
+                    b.img[p] ^= 1 << rng.below(8);
+                }
+            }
+            _ => {
+                let l = rng.range(0, 0x30) as usize;
+                b.img = rng.bytes(l);
+            }
+        }
+        push(&mut lines, fmt_case(&b, "~"));
+    }
+    lines
 }
 
 pub fn run_line(_st: &mut super::State, line: &str) -> String {
-    let id = line.split(' ').next().unwrap_or("?");
-    format!("{} unimplemented", id)
+    let f: Vec<&str> = line.split(' ').collect();
+    let id = f[0];
+    let img = unhex(f[2]);
+    let out = match no_panic(|| arc::from_bytes(&img)) {
+        Err(_) => "panic".to_string(),
+        Ok(Ok(files)) => {
+            let mut v: Vec<(&String, &Vec<u8>)> = files.iter().collect();
+            v.sort();
+            // a name outside the sub-codec alphabet (damaged images only) cannot be reproduced by
+            // the model's sub-codec: such results are compared as `ok ?`
+            if v.iter().all(|(k, _)| k.chars().all(|c| super::pack::sjis_sub_char(c).is_some())) {
+                let mut s = format!("ok {}", v.len());
+                for (k, b) in v {
+                    s.push_str(&format!(" {} {}", hexs(k), hex(b)));
+                }
+                s
+            } else {
+                "ok ?".to_string()
+            }
+        }
+        Ok(Err(ArcError::NoCount)) => "err NoCount".to_string(),
+        Ok(Err(ArcError::NoInfo)) => "err NoInfo".to_string(),
+        Ok(Err(ArcError::MissingName)) => "err MissingName".to_string(),
+        Ok(Err(ArcError::ArchiveError(ArchiveError::OutOfBoundsAddress(_, _)))) => "err OutOfBounds".to_string(),
+        Ok(Err(_)) => "err Other".to_string(),
+    };
+    format!("{} {}", id, out)
 }
